@@ -108,6 +108,7 @@ macro_rules! row_ident {
         #[cfg_attr(kani, kani::unwind(30))]
         #[cfg_attr(kani, kani::stub(chrono::Utc::now, crate::verif::rt::stub_now))]
         #[cfg_attr(kani, kani::stub(crate::decoder::get_downlink_format, super::rows::stub_get_df))]
+        #[cfg_attr(kani, kani::stub(crate::decoder::adsb::icao::get_icao, super::rows::stub_get_icao))]
         #[cfg_attr(kani, kani::stub(crate::decoder::utils::get_message_type, super::rows::stub_get_tc))]
         #[cfg_attr(verif_replay, test)]
         fn $name() {
@@ -118,13 +119,17 @@ macro_rules! row_ident {
             let use_update = any_bool();
             let relaxed = any_bool();
             let mut p = any_row();
+            // the row holds no callsign yet: replacing an existing String with a symbolic-content one
+            // (drop / clone_from with symbolic lengths) exhausts memory; that a carried callsign REPLACES
+            // the old one is decided with the marker stub in c19_neutral_tc4 / c11 lemmas
+            p.ais = None;
             let Some((df, icao)) = accepted(&m) else { return };
             p.icao = icao;
             let before = clone_row(&p);
             apply(&mut p, &m, df, use_update, relaxed);
             let ca = bits(&m, 38, 40) as u32;
             vcover!(use_update && ca == 7, "-U, category 7");
-            vcover!(!use_update && before.ais.is_some(), "default path replaces a callsign");
+            vcover!(!use_update && ca == 0, "default path, category 0");
             vassert!(matches_oracle(&p.ais, &m), "C07: row callsign is not the eight characters of the identification squitter just applied");
             vassert!(p.category == ($tc, ca), "C07: emitter category is not (type code, 3-bit category) of the identification squitter");
             assert_unchanged_except(&before, &p, F_AIS | F_CATEGORY | F_BOOK | F_CAP0);
@@ -150,6 +155,7 @@ row_ident!(c07_row_tc3_p0, 3, 0);
 #[cfg_attr(kani, kani::unwind(30))]
 #[cfg_attr(kani, kani::stub(chrono::Utc::now, crate::verif::rt::stub_now))]
 #[cfg_attr(kani, kani::stub(crate::decoder::get_downlink_format, super::rows::stub_get_df))]
+#[cfg_attr(kani, kani::stub(crate::decoder::adsb::icao::get_icao, super::rows::stub_get_icao))]
 #[cfg_attr(kani, kani::stub(crate::decoder::utils::get_message_type, super::rows::stub_get_tc))]
 #[cfg_attr(verif_replay, test)]
 fn c07_create_tc4() {
@@ -183,6 +189,7 @@ macro_rules! bds20 {
         #[cfg_attr(kani, kani::unwind(90))]
         #[cfg_attr(kani, kani::stub(chrono::Utc::now, crate::verif::rt::stub_now))]
         #[cfg_attr(kani, kani::stub(crate::decoder::get_downlink_format, super::rows::stub_get_df))]
+        #[cfg_attr(kani, kani::stub(crate::decoder::adsb::icao::get_icao, super::rows::stub_get_icao))]
         #[cfg_attr(verif_replay, test)]
         fn $name() {
             let codes = pair_codes($p);
@@ -192,13 +199,14 @@ macro_rules! bds20 {
             pin_df(&m, $df);
             let relaxed = any_bool();
             let mut p = any_row();
+            p.ais = None;
             let Some((df, icao)) = accepted(&m) else { return };
             p.icao = icao;
             let before = clone_row(&p);
             apply(&mut p, &m, df, false, relaxed);
             let open = relaxed || before.capability.0 > 3;
             vcover!(open && !relaxed, "gate opened by the recorded capability");
-            vcover!(!open && before.ais.is_some(), "gate closed on a row with a callsign");
+            vcover!(!open, "gate closed");
             if open {
                 vassert!(matches_oracle(&p.ais, &m), "C07/C10: BDS 2,0 callsign is not the eight characters of the MB field");
             } else {
